@@ -45,6 +45,7 @@ Rules == {
   [name |-> "unfinalized-transaction",           stage |-> "bcontext", edge |-> TRUE],   \* lock time = height / height - 1
   [name |-> "unexpected-witness",                stage |-> "bcontext", edge |-> FALSE],
   [name |-> "bad-witness-commitment",            stage |-> "bcontext", edge |-> FALSE],
+  [name |-> "witness-commitment-not-last",       stage |-> "bcontext", edge |-> TRUE],   \* right commitment followed by a wrong one / preceded by a wrong one
   [name |-> "bad-coinbase-height",               stage |-> "bcontext", edge |-> FALSE],  \* BIP34 (valid blocks carry the exact height)
   [name |-> "coinbase-witness-nonce-bad",        stage |-> "bcontext", edge |-> FALSE],  \* reserved value of 31 bytes
   [name |-> "block-weight-too-big",              stage |-> "bcontext", edge |-> TRUE],   \* weight 4,000,001 / 4,000,000 with witness data
